@@ -52,6 +52,18 @@ static void run(Ctx &c) {
   static const int fam[] = {'*', 'x', ' ', '_'};
   int family = fam[c.weighted({6, 2, 2, 1})];
   Fmt f = draw_fmt(c, family);
+  // 'x' family with different start and end characters: the end character is never recognised, so no section can be written,
+  // but a text without sections is still a text of this style. Taken for the formats that name three quote characters (no draw),
+  // unless the finding C09-x-style-distinct-delimiters is open.
+  if (family == 'x' && f.esc[2] && !c.exclude("C09-x-style-distinct-delimiters")) {
+    for (const char *p = kPunct; *p; ++p) {
+      if (f.is_delim(*p) || f.is_com(*p) || f.is_esc(*p)) continue;
+      f.text[2] = *p;
+      decode(f);
+      break;
+    }
+    c.label("fmt:x-distinct-delimiters");
+  }
   Flags fl = draw_flags(c);
   GenLimits lim;
   lim.huge_values = c.chance(16);
